@@ -384,7 +384,7 @@ def native_binary(ctx, harness, defs=()):
             return ctx.cache[key]
     out = os.path.join(ctx.tmp, 'native-%s-%s' % (os.path.splitext(harness)[0], hashlib.md5(repr(key).encode()).hexdigest()[:8]))
     cmd = ['g++', '-std=c++20', '-O1', '-g', '-fsanitize=address,undefined', '-fno-sanitize-recover=undefined', '-w',
-           '-rdynamic'] + ctx.incs() + ctx.src_defs() + [d for d in defs if not d.startswith('-l')] + \
+           '-rdynamic'] + ctx.incs() + ctx.src_defs() + [d for d in defs if not d.startswith('-l') and d != '-fno-pie'] + \
           [os.path.join(VERIF, 'harness', harness), os.path.join(VERIF, 'replay', 'native_rt.cpp'), '-ldl', '-lpthread'] + \
           [d for d in defs if d.startswith('-l')] + ['-o', out]
     rc, o, t, _ = sh(cmd, timeout=900)
